@@ -208,7 +208,42 @@ pub fn c19_case(kind: Kind, t: &[u8], embedded: bool, others: &[String], out: &m
 	n
 }
 
+/// An ill-formed value against the well-formed text a lossy decoder would turn it into (every
+/// offending octet run replaced by U+FFFD, spelled with escapes): the two components hold different
+/// octets and must not compare equal.
+pub fn c19_lossy_twin_case(kind: Kind, t: &[u8], out: &mut Vec<Violation>) -> u64 {
+	let octets = equiv::pct_octets(t);
+	if std::str::from_utf8(&octets).is_ok() {
+		return 0;
+	}
+	let twin: Vec<u8> = String::from_utf8_lossy(&octets).as_bytes().iter().flat_map(|b| format!("%{:02X}", b).into_bytes()).collect();
+	if !valid(kind, &twin) {
+		return 0;
+	}
+	let mut input = c19_input(kind, t, false);
+	input["lossy_twin"] = bytes_json(&twin);
+	let mk = |what: &str| Violation::new("C19", "lossy-twin", what, input.clone()).feat("component", kind.name());
+	for (x, y, dir) in [(t, &twin[..], "value == twin"), (&twin[..], t, "twin == value")] {
+		match c07_pair_obs(kind, x, y) {
+			Guard::Ok(o) => {
+				if o.eq || !o.ne || o.cmp == std::cmp::Ordering::Equal {
+					out.push(mk("illformed-equals-wellformed").feat("direction", dir).obs(format!("== {}, != {}, cmp {:?}", o.eq, o.ne, o.cmp)).exp("different octets: not equal"));
+				}
+			}
+			Guard::Panic(pm) => out.push(mk("panic").feat("panic_at", panic_site(&pm)).obs(format!("panic: {pm}")).exp("terminates without panicking")),
+		}
+	}
+	2
+}
+
 pub fn c19_replay(input: &Value, others: &[String]) -> Vec<Violation> {
+	if !input["lossy_twin"].is_null() {
+		let mut out = Vec::new();
+		if let (Some(k), Some(t)) = (input["kind"].as_str().and_then(Kind::parse), json_bytes(&input["text"])) {
+			c19_lossy_twin_case(k, &t, &mut out);
+		}
+		return out;
+	}
 	let mut out = Vec::new();
 	if let (Some(k), Some(t)) = (input["kind"].as_str().and_then(Kind::parse), json_bytes(&input["text"])) {
 		c19_case(k, &t, input["embedded"].as_bool().unwrap_or(false), others, &mut out);
